@@ -9,6 +9,7 @@ declarative meaning gives to the original path), Delivery (harness consistency).
 """
 from __future__ import annotations
 
+import itertools
 import random
 
 from .. import routing as rt
@@ -37,6 +38,26 @@ def build_groups(ctx: Ctx):
                 rules = [dict(r, methods=None) for r in rules]
             cases = [(p, "GET", rng.choice(rt.QUERIES)) for p in rt.c12_paths(rules, rng, 24)]
             groups.append((rt.make_cfg(rules, rng.random() < 0.7, rng.random() < 0.7, True, bind), False, cases))
+    # (c) alias rules with their own defaults next to several candidate canonical rules, in every declaration
+    #     order (quick: 5 orders per template), with and without query args, optionally among unrelated rules
+    for tpl in rt.alias_groups():
+        orders = list(itertools.permutations(range(len(tpl))))
+        rng.shuffle(orders)
+        for o in orders[: 5 if q else 120]:
+            rules = [dict(tpl[i], strict=rng.choice("dddtf"), merge=rng.choice("ddtf")) for i in o]
+            paths = rt.alias_group_paths(rules, rng, 26 if q else 60)
+            if rng.random() < 0.4:
+                extra = rt.random_rules(rng, rng.randint(1, 2))
+                for e in extra:
+                    e["methods"] = None
+                rules = rules + extra
+                rng.shuffle(rules)
+            bind = rng.choice(rt.BINDS)
+            cases = []
+            for p in paths:
+                cases.append((p, "GET", rt.NOQ))
+                cases.append((p, rng.choice(["GET", "HEAD", "POST"]), rng.choice(rt.QUERIES[1:])))
+            groups.append((rt.make_cfg(rules, rng.random() < 0.6, rng.random() < 0.7, rng.random() < 0.9, bind), False, cases))
     # (b) random maps with defaults / alias pairs and per-rule overrides
     for _ in range(220 if q else 2500):
         rules = rt.c12_rules(rng, rng.randint(2, 6))
